@@ -155,7 +155,13 @@ func (g *Gen) Valid() *Req {
 	}
 	nc := r.Range(1, g.O.MaxCrit)
 	if q.Method == "choquetIntegral" && nc > 5 {
-		nc = 5 // 31 capacities; with two added criteria 127
+		if g.O.MaxCrit >= 7 {
+			if nc > 7 {
+				nc = 7 // the occasional large profile: 127 capacities
+			}
+		} else {
+			nc = 5 // 31 capacities; with two added criteria 127
+		}
 	}
 	// ids
 	if g.O.WeirdIds && na <= len(weirdAlt) && nc <= len(weirdCrit) {
@@ -171,8 +177,16 @@ func (g *Gen) Valid() *Req {
 		for i := 0; i < na; i++ {
 			q.Alts = append(q.Alts, fmt.Sprintf("a%d", i+1))
 		}
-		for i := 0; i < nc; i++ {
-			q.Crits = append(q.Crits, fmt.Sprintf("c%d", i+1))
+		if r.Bool(0.3) {
+			// names from a larger pool: state keyed by criteria names (caches) sees many distinct keys
+			p := r.Perm(40)
+			for i := 0; i < nc; i++ {
+				q.Crits = append(q.Crits, fmt.Sprintf("k%d", p[i]+1))
+			}
+		} else {
+			for i := 0; i < nc; i++ {
+				q.Crits = append(q.Crits, fmt.Sprintf("c%d", i+1))
+			}
 		}
 		if r.Bool(0.3) {
 			// declaration order different from lexical order
